@@ -46,6 +46,18 @@ type c13Odd struct {
 	SI []interface{}   `valid:"exist,unique"`
 }
 
+// Field names that start with a caseless letter are legal Go identifiers but NOT exported; reading
+// them through reflect.Value.Interface() panics.
+type c13Caseless struct {
+	数量 int      `valid:"required,eq=3,in=(1/2)"`
+	名称 string   `valid:"required,in=(a/b),unique"`
+	שם []int    `valid:"required,unique,ints"`
+	ある string   `valid:"botheq=1"`
+	いる string   `valid:"botheq=1"`
+	A  string   `valid:"required"`
+	子 *c13Node `valid:"exist"`
+}
+
 type c13Call struct {
 	Entry string
 	Desc  string
@@ -102,7 +114,7 @@ func c13Catalogue() []c13Call {
 		{"T{P:nil elements}", c13Node{A: "x", S: []*c13Node{nil}, M: map[string]*c13Node{"k": nil}, V: []c13Node{{}}, R: one}},
 		{"&T{PP->nil}", &c13Node{A: "x", PP: pp, R: one, I: 1}}, {"&T{PP->T}", &c13Node{A: "x", PP: ppOne, R: one, I: one}},
 		{"&T{I: nil *T}", &c13Node{A: "x", I: nilNode, R: one}}, {"&T{I: struct}", &c13Node{A: "x", I: c13Node{}, R: one}},
-		{"odd kinds", odd}, {"&odd zero", &c13Odd{}}, {"[]*odd{nil}", []*c13Odd{nil, &odd}},
+		{"odd kinds", odd}, {"&odd zero", &c13Odd{}}, {"caseless field names", &c13Caseless{数量: 5, 名称: "zz,zz", שם: []int{1, 1}, ある: "x", いる: "y", 子: one}}, {"caseless zero", c13Caseless{}}, {"[]*odd{nil}", []*c13Odd{nil, &odd}},
 		{"*[]T", &[]c13Node{{A: ""}}}, {"*[]*T{nil}", &[]*c13Node{nil}}, {"struct{}", struct{}{}}, {"*struct{}", &struct{}{}},
 		{"map[string]T", map[string]c13Node{"k": {}}}, {"map[*T]T", map[*c13Node]c13Node{one: {}}}, {"map[interface{}]*T", map[interface{}]*c13Node{nil: nil, 1: one}},
 	}
